@@ -1,4 +1,6 @@
 //! cw3 family: C04 (library-level threshold arithmetic, module `tally`) and the
 //! contract-level properties C03, C05, C06, C15 (module `multisig`).
+pub mod chain;
 pub mod model;
+pub mod multisig;
 pub mod tally;
